@@ -39,7 +39,14 @@ def programs():
     def reg(name, shapes, fn):
         def build():
             ins = {n: _ph(n, s) for n, s in shapes.items()}
-            return ins, fn(**ins)
+            outs = fn(**ins)
+            # programs may create extra placeholders: collect them
+            from pytato.transform import InputGatherer
+            for o in outs.values():
+                for i in InputGatherer()(o):
+                    if isinstance(i, pt.array.Placeholder) and i.name not in ins:
+                        ins[i.name] = i
+            return ins, outs
         P[name] = build
 
     reg("mv_sum", {"A": (3, 2), "x": (2,), "y": (2,)}, lambda A, x, y: {"o": A @ (x + y)})
@@ -83,7 +90,102 @@ def programs():
     reg("stack_inside", {"A": (2, 2), "x": (2,), "y": (2,)},
         lambda A, x, y: {"o": A @ pt.stack([x + y, x - y], axis=1)})
     reg("scale_chain", {"A": (2, 2), "x": (2,)}, lambda A, x: {"o": A @ (((x * 2.0) / 4.0) * 0.5), "p": A @ (1.0 / (2.0 * x))})
+    # a broadcast unit axis that is a *reduction* index of the einsum
+    reg("bcast_reduction_axis", {"U": (3, 2), "m": (3, 1), "w": (3,)},
+        lambda U, m, w: {"o": pt.einsum("ij,i->i", U - m, w), "p": pt.einsum("ij->i", 0.5 * (U + m)),
+                         "q": pt.einsum("ij,j->i", U + m, pt.make_placeholder("v2", (2,), F64))})
+    reg("bcast_reduction_axis2", {"U": (2, 3), "r": (1, 3), "w": (2,)},
+        lambda U, r, w: {"o": pt.einsum("ij,i->j", U + r, w), "p": pt.einsum("ij,i->", U - r, w)})
+    # two distributed einsums of the same kind over a shared operand, different surrounding operands
+    reg("shared_flux", {"Dx": (2, 2), "Dy": (2, 2), "u": (2,), "v": (2,), "f": (2,)},
+        lambda Dx, Dy, u, v, f: (lambda flux: {"o": Dx @ flux + Dy @ flux, "p": Dx @ (u + v) - Dy @ (u - f)})(u + 2.0 * v))
     reg("sum_of_three", {"A": (2, 2), "x": (2,), "y": (2,), "z": (2,)}, lambda A, x, y, z: {"o": A @ (x + y + z)})
+    return P
+
+
+def _gen_tree(rnd, depth, leaves, pt):
+    """random operand tree producing a length-2 vector; returns (builder(ins) -> Array, text)"""
+    if depth == 0 or rnd.random() < 0.25:
+        kind = rnd.choice(["leaf", "leaf", "row", "col"])
+        if kind == "leaf":
+            n = rnd.choice(leaves)
+            return (lambda ins, n=n: ins[n]), n
+        if kind == "row":
+            k = rnd.randrange(3)
+            return (lambda ins, k=k: ins["M"][k]), f"M[{k}]"
+        k = rnd.randrange(2)
+        return (lambda ins, k=k: ins["N"].T[k]), f"N.T[{k}]"
+    op = rnd.choice(["add", "sub", "mul_s", "s_mul", "div_s", "s_div", "mul", "div", "pow", "sin", "neg", "add", "sub",
+                     "mul_s", "div_s", "reshape", "sub_s", "s_sub"])
+    a, ta = _gen_tree(rnd, depth - 1, leaves, pt)
+    c = rnd.choice([2.0, 0.5, 3.0, -1.5])
+    if op in ("add", "sub", "mul", "div"):
+        b, tb = _gen_tree(rnd, depth - 1, leaves, pt)
+        f = {"add": lambda u, v: u + v, "sub": lambda u, v: u - v, "mul": lambda u, v: u * v, "div": lambda u, v: u / v}[op]
+        return (lambda ins, a=a, b=b, f=f: f(a(ins), b(ins))), f"({ta} {op} {tb})"
+    if op == "mul_s":
+        return (lambda ins, a=a, c=c: a(ins) * c), f"({ta} * {c})"
+    if op == "s_mul":
+        return (lambda ins, a=a, c=c: c * a(ins)), f"({c} * {ta})"
+    if op == "div_s":
+        return (lambda ins, a=a, c=c: a(ins) / c), f"({ta} / {c})"
+    if op == "s_div":
+        return (lambda ins, a=a, c=c: c / a(ins)), f"({c} / {ta})"
+    if op == "sub_s":
+        return (lambda ins, a=a, c=c: a(ins) - c), f"({ta} - {c})"
+    if op == "s_sub":
+        return (lambda ins, a=a, c=c: c - a(ins)), f"({c} - {ta})"
+    if op == "pow":
+        return (lambda ins, a=a: a(ins) ** 2), f"({ta} ** 2)"
+    if op == "sin":
+        return (lambda ins, a=a: pt.sin(a(ins))), f"sin({ta})"
+    if op == "reshape":
+        return (lambda ins, a=a: pt.reshape(pt.reshape(a(ins), (2, 1)), (2,))), f"reshape({ta})"
+    return (lambda ins, a=a: -a(ins)), f"(-{ta})"
+
+
+def generated_programs(seed, n):
+    import random
+    import pytato as pt
+    rnd = random.Random(4242 + seed)
+    P = {}
+    shapes = {"A": (3, 2), "A2": (3, 2), "B": (2, 2), "M": (3, 2), "N": (2, 2), "x": (2,), "y": (2,), "z": (2,), "w": (3,),
+              "col": (3, 1)}
+    for k in range(n):
+        t1, s1 = _gen_tree(rnd, rnd.randint(1, 3), ["x", "y", "z"], pt)
+        t2, s2 = _gen_tree(rnd, rnd.randint(1, 2), ["x", "y"], pt)
+        form = rnd.choice(["mv", "mv", "nested", "three", "left", "two", "shared", "bred"])
+
+        def fn(ins, t1=t1, t2=t2, form=form):
+            A, B, w = ins["A"], ins["B"], ins["w"]
+            if form == "mv":
+                return {"o": A @ t1(ins)}
+            if form == "nested":
+                return {"o": A @ (B @ t1(ins) + t2(ins))}
+            if form == "three":
+                return {"o": pt.einsum("ij,j,i->i", A, t1(ins), w), "p": pt.einsum("ij,j,i->", A, t2(ins), w)}
+            if form == "left":
+                return {"o": t1(ins) @ B, "p": (B + B.T) @ t2(ins)}
+            if form == "shared":
+                t = t1(ins)
+                return {"o": A @ t + ins["A2"] @ t, "p": A @ (t + t2(ins)) - ins["A2"] @ (t - t2(ins))}
+            if form == "bred":
+                c = ins["col"]
+                return {"o": pt.einsum("ij,i->i", A + c, w), "p": pt.einsum("ij->i", 0.5 * (A - c)),
+                        "q": pt.einsum("ij,j->i", A - c, t1(ins))}
+            return {"o": A @ t1(ins) - A @ t2(ins)}
+
+        def build(fn=fn):
+            ins = {nm: _ph(nm, shp) for nm, shp in shapes.items()}
+            return ins, fn(ins)
+        build.text = f"{form}: t1 = {s1}; t2 = {s2}"
+        P[f"gen{seed}_{k}"] = build
+    return P
+
+
+def all_programs(tier, seed):
+    P = programs()
+    P.update(generated_programs(seed, 150 if tier == "thorough" else 50))
     return P
 
 
@@ -190,11 +292,12 @@ class RewriteOb(SmtOb):
         return False, {"why": "sat over the reals with uninterpreted inv(), but numerically equal (abstraction)"}
 
 
-def distribute_job(prog: str) -> JobOut:
+def distribute_job(prog: str, seed: int = 0, gen_tier: str = "quick") -> JobOut:
     import pytato as pt
     from pytato.transform.einsum_distributive_law import (DoDistribute, DoNotDistribute,
                                                           apply_distributive_property_to_einsums)
-    ins, outs = programs()[prog]()
+    build = all_programs("thorough" if gen_tier == "thorough" else "quick", seed)[prog]
+    ins, outs = build()
     dag = pt.transform.deduplicate(pt.make_dict_of_named_arrays(outs))
     es = _einsums_of(dag)
     listed = load_findings("C06")
@@ -232,13 +335,14 @@ def distribute_job(prog: str) -> JobOut:
         obs.append(RewriteOb(f"{prog}/distribute[{label}]", {k: dag[k] for k in dag.keys()},
                              {k: new[k] for k in dag.keys()}, shapes,
                              {"program": prog, "policy": label, "einsums": len(es), "inputs": info_in,
+                              "expression": getattr(build, "text", "hand-written"),
                               "encoding": "z3 reals, uninterpreted inputs, x/y as x*inv(y), reductions unrolled"}))
     return JobOut(obs=obs, sides=sides, info={"policies_declined_as_composed": n_declined})
 
 
-def nobroadcast_job(prog: str) -> JobOut:
+def nobroadcast_job(prog: str, seed: int = 0, gen_tier: str = "quick") -> JobOut:
     import pytato as pt
-    ins, outs = programs()[prog]()
+    ins, outs = all_programs("thorough" if gen_tier == "thorough" else "quick", seed)[prog]()
     dag = pt.transform.deduplicate(pt.make_dict_of_named_arrays(outs))
     try:
         new = pt.rewrite_einsums_with_no_broadcasts(dag)
@@ -264,17 +368,19 @@ def nobroadcast_job(prog: str) -> JobOut:
 
 
 def jobs(tier: str, seed: int):
-    P = programs()
+    P = all_programs(tier, seed)
     J = []
     for name in P:
-        J.append(Job(MOD, "distribute_job", {"prog": name}, jid=f"{name}/distribute", hard_timeout=900))
-        J.append(Job(MOD, "nobroadcast_job", {"prog": name}, jid=f"{name}/nobroadcast", hard_timeout=600))
+        kw = {"prog": name, "seed": seed, "gen_tier": tier}
+        J.append(Job(MOD, "distribute_job", kw, jid=f"{name}/distribute", hard_timeout=900))
+        J.append(Job(MOD, "nobroadcast_job", kw, jid=f"{name}/nobroadcast", hard_timeout=600))
     meta = {
         "programs": len(P),
         "explanation": "Translation validation with a direct SMT query: the real einsum rewrites run on each program under "
                        "every distribution policy; both DAGs are unrolled per output element into z3 real arithmetic "
                        "over uninterpreted input arrays; unsat of 'some element differs' = identity for all inputs.",
-        "bounds": {"programs": sorted(P), "policies": "all (each einsum: do-not-distribute or distribute over each operand)",
+        "bounds": {"programs": f"{len(P)}: 30 hand-written + seeded operand trees over + - * / (array and scalar on either side), "
+                               "** 2, sin, neg, indexing, reshape, transpose inside 1..3 (nested) einsums/matmuls", "policies": "all (each einsum: do-not-distribute or distribute over each operand)",
                    "axis extents": "<= 4 (element indices enumerated, reductions unrolled)",
                    "inputs": "all real values (uninterpreted arrays)"},
         "outside": ["floating-point rounding (identity is over the reals; candidates are replayed numerically)",
